@@ -289,9 +289,9 @@ func findRecurTmpl(name string) *recurTmpl {
 // budgets of the recursion templates (quick tier: a tenth of the CPU)
 const (
 	recurCPU      = 1_000_000_000
-	recurCPUQuick = 60_000_000
+	recurCPUQuick = 20_000_000
 	recurMem      = 1_000_000_000
-	recurMemQuick = 400_000_000
+	recurMemQuick = 128_000_000
 )
 
 func execRecur(c Case) Outcome {
